@@ -41,6 +41,7 @@ struct Saved {
     def: LocalDefId,
     body: Body<'static>,
     witnesses: Option<Vec<(String, String)>>,
+    promoted: Vec<Vec<String>>,
 }
 // Bodies are cloned inside the borrowck override (before `mir_promoted` is stolen) and
 // serialised in `after_analysis`, where every query is available without cycles.
@@ -56,10 +57,25 @@ fn my_borrowck<'tcx>(
         defs.push(n);
     }
     for d in defs {
-        let (steal, _) = tcx.mir_promoted(d);
+        let (steal, prom) = tcx.mir_promoted(d);
         if steal.is_stolen() {
             continue;
         }
+        // promoted constants (`&Some(true)` etc.): their statements as text, index = promoted[i]
+        let promoted: Vec<Vec<String>> = if prom.is_stolen() {
+            Vec::new()
+        } else {
+            prom.borrow()
+                .iter()
+                .map(|pb| {
+                    pb.basic_blocks
+                        .iter()
+                        .flat_map(|bb| bb.statements.iter().map(|st| format!("{:?}", st)))
+                        .filter(|t| !t.starts_with("StorageLive") && !t.starts_with("StorageDead"))
+                        .collect()
+                })
+                .collect()
+        };
         let body: Body<'tcx> = steal.borrow().clone();
         // SAFETY: the clone is only used again in `after_analysis` of the same compilation
         // session, while `tcx` (and its arenas) are still alive.
@@ -82,7 +98,7 @@ fn my_borrowck<'tcx>(
         } else {
             None
         };
-        BODIES.lock().unwrap().push(Saved { def: d, body, witnesses });
+        BODIES.lock().unwrap().push(Saved { def: d, body, witnesses, promoted });
     }
     (ORIG.get().unwrap())(tcx, def)
 }
@@ -615,6 +631,12 @@ impl<'tcx> Cx<'tcx> {
             f.push((
                 "saved",
                 J::Arr(w.iter().map(|(n, t)| J::Obj(vec![("name", J::s(n.clone())), ("ty", J::s(t.clone()))])).collect()),
+            ));
+        }
+        if !saved.promoted.is_empty() {
+            f.push((
+                "promoted",
+                J::Arr(saved.promoted.iter().map(|v| J::Arr(v.iter().map(|t| J::s(t.clone())).collect())).collect()),
             ));
         }
         f.push(("blocks", J::Arr(blocks)));
